@@ -9,18 +9,30 @@ TRUSTED_BASE = [
     "scipy.signal.windows.chebwin has no closed form in the model: the chebwin wrapper is compared with scipy's function directly "
     "by the oracle",
     "window samples are computed by the model in doubles (Float.cos/exp/...), compared at rtol 1e-9 (taylor/kaiser 1e-8)",
+    "per-sample references of the oracle (|w - ref| <= 1e-9 |ref| + 1e-15; cosine sums + 1e-14): numpy closed forms written in the "
+    "oracle for gaussian / poisson / poisson_hanning / cauchy / hamming / blackman / nuttall / blackman_nuttall / blackman_harris / "
+    "flattop (both coefficient sets), scipy.special.i0 for kaiser, scipy.signal.windows.chebwin for chebwin",
+    "Kaiser beta > 50 is outside the model's 60-term I0 series: those cases are checked by the oracle only (scipy.special.i0)",
     "the window-name table, generator signatures and factory routing are regenerated from the live package into "
     "lean/SpecVerif/Generated/Registry.lean on every run; the alias/routing theorems are `decide`d about that table",
 ]
 PARTIAL = ["max <= 1 for chebwin and taylor (and centre = 1 for chebwin) are evaluated by the oracle, not proved; kaiser (<= 1, > 0, centre = 1, first sample 1/I0(beta)) and the taylor centre are proved for the model's 60-term I0 series",
            "flat-top: the published coefficients sum to 1.000000003, so its bound is sum a_i (float check: 1 + 1e-8)"]
-ASSUMPTIONS = ["flattop(mode='periodic') satisfies w[n] = w[N-n] (the periodic variant); the symmetric clause is read for the default mode",
+ASSUMPTIONS = ["the ENBW comparison (Window.enbw, spectrum.enbw against N sum w^2 / (sum w)^2) is made for every N whenever sum(w) != 0 "
+               "and the samples do not underflow when squared (max |w| > 1e-150; only kaiser(N <= 2, beta = 700) falls below); an "
+               "all-zero window (hann(2), riesz(1)) has no ENBW (0/0) and the '>= 1' clause is stated for N >= 3",
+               "values outside the documented set (tukey r outside [0, 1], flattop mode not symmetric/periodic) are refused with "
+               "AssertionError; keywords that are not documented for the window with ValueError; Window without a name with ValueError",
+               "flattop(mode='periodic') satisfies w[n] = w[N-n] (the periodic variant); the symmetric clause is read for the default mode",
                "Chebyshev windows: the centre-sample clause is evaluated for attenuation >= 45 dB and N <= 512 (the exhaustive range): a "
                "Dolph-Chebyshev window whose main lobe is narrower than the requested attenuation allows has its maximum at the end "
                "samples (scipy normalises by the maximum and warns); e.g. 50 dB, N = 2047. This is a property of the window definition, "
                "not of the wrapper"]
 RULE = ("all 29 window names x N = 1..96 exhaustively (quick) / 1..512 (thorough) and sampled N up to 2048 / 16384, default and "
-        "random shape parameters over their documented ranges; factory routing, alias, Window-object cases; non-trivial = N >= 3")
+        "random shape parameters over their documented ranges, plus Chebyshev attenuation 20..150 (5..300 thorough), Kaiser beta "
+        "50/300/700, integer / float / numpy-scalar twins of every parameter, N given as numpy int64/int32, parameterised windows "
+        "at N = 1023, 4096 (thorough); factory routing (default name, every keyword of every generator against every name), alias, "
+        "Window-object, direct-generator (kaiser method, flattop precision='octave') and value-guard cases; non-trivial = N >= 3")
 
 
 def _W():
@@ -47,9 +59,17 @@ PARAMS = {
 }
 
 
+NTYPES = {"int64": np.int64, "int32": np.int32, "int16": np.int16}
+
+
+def _N(p):
+    """the length as handed to the library: a Python int, or the numpy integer type named by p['ntype']"""
+    return NTYPES[p["ntype"]](p["N"]) if p.get("ntype") else p["N"]
+
+
 def impl_win(p):
     W = _W()
-    return [np.asarray(W.create_window(p["N"], p["name"], **p["kw"]), dtype=float)]
+    return [np.asarray(W.create_window(_N(p), p["name"], **p["kw"]), dtype=float)]
 
 
 def model_win(p):
@@ -57,6 +77,8 @@ def model_win(p):
     kw = p["kw"]
     par = []
     if g in ("window_kaiser",):
+        if kw.get("beta", 8.6) > 50:
+            return None      # outside the range of the model's 60-term I0 series; the oracle's scipy.special.i0 reference applies
         par = [kw.get("beta", 8.6)]
     elif g == "window_blackman":
         par = [kw.get("alpha", 0.16)]
@@ -72,18 +94,81 @@ def model_win(p):
         par = [1.0 if kw.get("mode", "symmetric") == "periodic" else 0.0]
     elif g == "window_taylor":
         par = [float(kw.get("nbar", 4)), float(kw.get("sll", -30))]
-    return ("F", proto.request("window", "F", [g, p["N"]], [par]))
+    return ("F", proto.request("window", "F", [g, int(p["N"])], [[float(v) for v in par]]))
+
+
+def _hp(N, n):
+    """numpy.linspace(-N/2, N/2, N)[n] written out"""
+    return -N / 2.0 + n * (N / (N - 1.0))
+
+
+def _reference(g, N, kw):
+    """independent per-sample reference of the generator `g` (N >= 2): (array, absolute floor) or None.
+    Product / exponential forms keep their relative accuracy in the tails (floor 1e-15); the cosine sums cancel at the ends,
+    so their floor is a few ulps of the unit-size terms (1e-14)."""
+    n = np.arange(N, dtype=float)
+    th = 2 * np.pi * n / (N - 1.0)
+    if g == "window_kaiser":
+        from scipy.special import i0
+        b = float(kw.get("beta", 8.6))
+        return i0(b * np.sqrt(4.0 * n * (N - 1 - n)) / (N - 1.0)) / i0(b), 1e-15
+    if g == "window_gaussian":
+        a = kw.get("alpha", 2.5)
+        return np.exp(-0.5 * (a * (n - (N - 1) / 2.0) / (N / 2.0)) ** 2), 1e-15
+    if g == "window_poisson":
+        return np.exp(-kw.get("alpha", 2) * np.abs(_hp(N, n)) / (N / 2.0)), 1e-15
+    if g == "window_poisson_hanning":
+        return (0.5 - 0.5 * np.cos(th)) * np.exp(-kw.get("alpha", 2) * np.abs(_hp(N, n)) / (N / 2.0)), 1e-15
+    if g == "window_cauchy":
+        return 1.0 / (1.0 + (kw.get("alpha", 3) * _hp(N, n) / (N / 2.0)) ** 2), 1e-15
+    if g == "window_chebwin":
+        import scipy.signal.windows
+        return scipy.signal.windows.chebwin(N, kw.get("attenuation", 50)), 1e-15
+    if g == "window_hamming":
+        return 0.54 - 0.46 * np.cos(th), 1e-14
+    if g == "window_blackman":
+        a = kw.get("alpha", 0.16)
+        return (1 - a) / 2.0 - 0.5 * np.cos(th) + a / 2.0 * np.cos(2 * th), 1e-14
+    c4 = {"window_nuttall": (0.355768, 0.487396, 0.144232, 0.012604),
+          "window_blackman_nuttall": (0.3635819, 0.4891775, 0.1365995, 0.0106411),
+          "window_blackman_harris": (0.35875, 0.48829, 0.14128, 0.01168)}
+    if g in c4:
+        a0, a1, a2, a3 = c4[g]
+        return a0 - a1 * np.cos(th) + a2 * np.cos(2 * th) - a3 * np.cos(3 * th), 1e-14
+    if g == "window_flattop":
+        x = 2 * np.pi * n / float(N) if kw.get("mode") == "periodic" else th
+        return _flattop_ref(x, None), 1e-14
+    return None
+
+
+def _flattop_ref(x, precision):
+    a = (0.21557895, 0.41663158, 0.277263158, 0.083578947, 0.006947368)
+    if precision == "octave":
+        a = tuple(v / 4.6402 for v in (1.0, 1.93, 1.29, 0.388, 0.0322))
+    return a[0] - a[1] * np.cos(x) + a[2] * np.cos(2 * x) - a[3] * np.cos(3 * x) + a[4] * np.cos(4 * x)
 
 
 def oracle_win(p):
+    import spectrum
     W = _W()
     N, name, kw = p["N"], p["name"], p["kw"]
+    Nl = _N(p)          # what the library is given (a numpy integer for the 'ntype' cases)
     out = []
-    tag = "%s(N=%d%s)" % (name, N, "".join(", %s=%r" % kv for kv in kw.items()))
+    tag = "%s(N=%s%d%s)" % (name, (p["ntype"] + ":") if p.get("ntype") else "", N, "".join(", %s=%r" % kv for kv in kw.items()))
     try:
-        w = np.asarray(W.create_window(N, name, **kw))
+        w = np.asarray(W.create_window(Nl, name, **kw))
     except Exception as e:
         return ["create_window %s raised %r" % (tag, e)]
+    if p.get("ntype"):
+        # a length given as a numpy integer is the same length
+        w0 = np.asarray(W.create_window(int(N), name, **kw))
+        if w.shape != w0.shape or not np.array_equal(w, w0):
+            out.append("create_window %s differs from the same request with a Python int N" % tag)
+    if p.get("twin") is not None:
+        # the same parameter value given as the other numeric type (3 / 3.0, numpy scalar) is the same window
+        wt = np.asarray(W.create_window(Nl, name, **p["twin"]))
+        if wt.shape != w.shape or not np.array_equal(w, wt):
+            out.append("create_window %s differs from the same request with %r" % (tag, p["twin"]))
     if w.shape != (N,) or np.iscomplexobj(w) or not np.all(np.isfinite(w)):
         return ["%s does not return N finite real samples (shape %s, finite %s)" % (tag, w.shape, bool(np.all(np.isfinite(w))))]
     periodic = (_gen_name(name) == "window_flattop" and kw.get("mode") == "periodic")
@@ -99,21 +184,32 @@ def oracle_win(p):
     if N >= 3 and N % 2 == 1 and not periodic and not cheb_far:
         if abs(w[N // 2] - 1) > 1e-8:
             out.append("%s centre sample is %.10f, not 1" % (tag, w[N // 2]))
-    if N >= 3:
-        s = np.sum(w)
-        if s != 0:
-            e = N * np.sum(w ** 2) / s ** 2
-            if e < 1 - 1e-12:
-                out.append("%s has ENBW %.6f < 1" % (tag, e))
+    s = np.sum(w)
+    if s != 0 and np.max(np.abs(w)) > 1e-150:
+        # (squares of samples below 1e-150 underflow: kaiser(2, beta=700) = [6.5e-303, 6.5e-303]; N >= 3 windows peak near 1)
+        # (an all-zero window -- hann(2), riesz(1) -- has no ENBW: 0/0; the ">= 1" clause is stated for N >= 3)
+        e = N * np.sum(w ** 2) / s ** 2
+        if N >= 3 and e < 1 - 1e-12:
+            out.append("%s has ENBW %.6f < 1" % (tag, e))
+        try:
+            e2 = W.Window(Nl, name, **kw).enbw
+            if not abs(e2 - e) <= 1e-9 * abs(e):
+                out.append("Window(%s).enbw = %r differs from N*sum(w^2)/sum(w)^2 = %r" % (tag, e2, e))
+        except Exception as ex:
+            out.append("Window(%s) raised %r" % (tag, ex))
+        # the enbw function itself, on the samples, against the oracle's formula (accurately summed)
+        import math
+        ef = N * math.fsum(float(v) * float(v) for v in w) / math.fsum(float(v) for v in w) ** 2
+        for fn, label in ((spectrum.enbw, "spectrum.enbw"), (W.enbw, "spectrum.window.enbw")):
             try:
-                e2 = W.Window(N, name, **kw).enbw
-                if abs(e2 - e) > 1e-9 * abs(e):
-                    out.append("Window(%s).enbw = %r differs from N*sum(w^2)/sum(w)^2 = %r" % (tag, e2, e))
+                e3 = fn(w)
+                if not abs(e3 - ef) <= 1e-9 * abs(ef):
+                    out.append("%s(%s) = %r differs from N*sum(w^2)/sum(w)^2 = %r" % (label, tag, e3, ef))
             except Exception as ex:
-                out.append("Window(%s) raised %r" % (tag, ex))
+                out.append("%s(%s) raised %r" % (label, tag, ex))
     # Window object reports the same samples and length
     try:
-        o = W.Window(N, name, **kw)
+        o = W.Window(Nl, name, **kw)
         if o.N != N or len(o.data) != N or rel(np.asarray(o.data), w) > 0:
             out.append("Window(%s) does not report the same samples / length" % tag)
     except Exception as ex:
@@ -121,7 +217,7 @@ def oracle_win(p):
     # the factory forwards the documented shape parameter: same as calling the generator directly
     gen = getattr(W, _gen_name(name))
     try:
-        wd = np.asarray(gen(N, **kw))
+        wd = np.asarray(gen(Nl, **kw))
         if rel(wd, w) > 0:
             out.append("create_window(%s) differs from %s(N, **kw)" % (tag, gen.__name__))
     except Exception as ex:
@@ -148,6 +244,16 @@ def oracle_win(p):
             ref = i0(b * np.sqrt(np.clip(1 - (2 * n / (N - 1) - 1) ** 2, 0, None))) / i0(b)
         if ref is not None and rel(w, ref) > 1e-9:
             out.append("%s differs from its closed-form definition: %.2e" % (tag, rel(w, ref)))
+        # every sample on its own scale: a tail sample (kaiser beta=30 ends at 1.3e-12, blackman_harris at 6e-5) that is
+        # wrong by any factor is invisible when the error is measured against the window maximum
+        r2 = _reference(g, N, kw)
+        if r2 is not None:
+            ref2, floor = r2
+            bad = np.abs(w - ref2) > 1e-9 * np.abs(ref2) + floor
+            if np.any(bad):
+                j = int(np.argmax(bad))
+                out.append("%s sample %d is %r, its definition gives %r (per-sample relative check, %d samples off)" % (
+                    tag, j, float(w[j]), float(ref2[j]), int(np.sum(bad))))
     return out
 
 
@@ -156,7 +262,7 @@ ALIASES = [("hann", "hanning"), ("rectangle", "rectangular"), ("bartlett", "tria
 
 def oracle_factory(p):
     W = _W()
-    N = p["N"]
+    N = _N(p)
     out = []
     for a, b in ALIASES:
         if not np.array_equal(W.create_window(N, a), W.create_window(N, b)):
@@ -184,18 +290,83 @@ def oracle_factory(p):
         out.append("create_window accepted an unknown name")
     except (AssertionError, ValueError, KeyError):
         pass
+    # the documented default name: rectangular
+    for args in ((N,), (N, None)):
+        try:
+            w = np.asarray(W.create_window(*args))
+            if w.shape != (N,) or not np.array_equal(w, np.ones(N)):
+                out.append("create_window%r is not the rectangular window ones(%d)" % (args, N))
+        except Exception as e:
+            out.append("create_window%r raised %r" % (args, e))
+    # ... while the Window object requires a name (documented ValueError)
+    try:
+        W.Window(N)
+        out.append("Window(%d) without a name did not raise ValueError" % N)
+    except ValueError:
+        pass
+    except Exception as e:
+        out.append("Window(%d) without a name raised %r instead of ValueError" % (N, e))
+    # exactly the documented shape parameters: every keyword of every generator (those of the other windows, and the
+    # generator arguments `method` / `precision` that the factory does not forward) is rejected unless it is the window's own
+    for name in names:
+        own = DOC_PARAMS.get(name, set())
+        for k in sorted(ALL_KEYWORDS):
+            if k in own:
+                continue
+            # alone, and next to a documented parameter of the window
+            for extra in [{}] + [{kk: ALL_KEYWORDS[kk]} for kk in sorted(own)]:
+                kws = dict(extra)
+                kws[k] = ALL_KEYWORDS[k]
+                try:
+                    W.create_window(N, name, **kws)
+                    out.append("create_window(%d, %r, **%r) accepted a parameter that is not documented for this window" % (N, name, kws))
+                except ValueError:
+                    pass
+                except Exception as e:
+                    out.append("create_window(%d, %r, **%r) raised %r instead of ValueError" % (N, name, kws, e))
+        # every documented parameter is accepted, alone and all together
+        for kws in [{k: ALL_KEYWORDS[k]} for k in sorted(own)] + ([{k: ALL_KEYWORDS[k] for k in own}] if len(own) > 1 else []):
+            try:
+                w = np.asarray(W.create_window(N, name, **kws))
+                wd = np.asarray(getattr(W, _gen_name(name))(N, **kws))
+                if w.shape != (N,) or not np.array_equal(w, wd):
+                    out.append("create_window(%d, %r, **%r) is not %s(N, **kw)" % (N, name, kws, _gen_name(name)))
+            except Exception as e:
+                out.append("create_window(%d, %r, **%r) raised %r" % (N, name, kws, e))
+    for name, kws in (("kaiser", {"method": "x"}), ("kaiser", {"method": "scipy"}), ("flattop", {"precision": "octave"}),
+                      ("taylor", {"beta": 1.0}), ("kaiser", {"beta": 3.0, "foo": 1}), ("flattop", {"mode": "periodic", "precision": None}),
+                      ("taylor", {"nbar": 4, "sll": -30.0, "alpha": 1.0})):
+        try:
+            W.create_window(N, name, **kws)
+            out.append("create_window(%d, %r, **%r) accepted an undocumented parameter" % (N, name, kws))
+        except ValueError:
+            pass
+        except Exception as e:
+            out.append("create_window(%d, %r, **%r) raised %r instead of ValueError" % (N, name, kws, e))
     return out
 
 
+# the documented shape parameters (create_window docstring; Taylor: the generator's own documentation), written down here
+# independently of the package's routing table, with a valid value for each keyword
+DOC_PARAMS = {"kaiser": {"beta"}, "blackman": {"alpha"}, "cauchy": {"alpha"}, "gaussian": {"alpha"}, "poisson": {"alpha"},
+              "poisson_hanning": {"alpha"}, "tukey": {"r"}, "chebwin": {"attenuation"}, "flattop": {"mode"},
+              "taylor": {"nbar", "sll"}}
+ALL_KEYWORDS = {"beta": 3.0, "alpha": 1.0, "r": 0.5, "attenuation": 60.0, "mode": "periodic", "nbar": 4, "sll": -30.0,
+                "method": "numpy", "precision": "octave", "foo": 1, "norm": True, "Beta": 3.0}
+
+
+
 def _key(p):
-    return "%s|%s|%s" % (p.get("name"), p["N"], sorted(p.get("kw", {}).items()))
+    return "%s|%s|%s%s%s" % (p.get("name"), p["N"], sorted((k, repr(v)) for k, v in p.get("kw", {}).items()),
+                             ("|" + p["ntype"]) if p.get("ntype") else "", "|twin" if p.get("twin") is not None else "")
 
 
 KINDS = {
     "win": {"impl": impl_win, "model": model_win, "oracle": oracle_win, "rtol": 1e-9, "atol": 1e-13, "key": _key,
             "nontrivial": lambda p: p["N"] >= 3,
-            "tags": lambda p: ["win:" + p["name"], "N:" + ("odd" if p["N"] % 2 else "even"), "params:" + ("default" if not p["kw"] else "given")]},
-    "factory": {"oracle": oracle_factory, "key": _key, "tags": lambda p: ["factory"]},
+            "tags": lambda p: ["win:" + p["name"], "N:" + ("odd" if p["N"] % 2 else "even"), "params:" + ("default" if not p["kw"] else "given")] + (
+                ["N:numpy-integer"] if p.get("ntype") else []) + (["params:numeric-type-twin"] if p.get("twin") is not None else [])},
+    "factory": {"oracle": oracle_factory, "key": _key, "tags": lambda p: ["factory"] + (["N:numpy-integer"] if p.get("ntype") else [])},
 }
 
 
@@ -224,10 +395,53 @@ def oracle_alt(p):
             except ValueError as e:
                 out.append("the factory accepts the window name %r but Window(%d, %r) raises ValueError" % (nm, N, nm))
                 break
+    if p["what"] == "flattop-octave":
+        # the generator's `precision="octave"` coefficient set (not forwarded by the factory): still a well-formed taper
+        mode = p["mode"]
+        tag = "window_flattop(%d, %r, precision='octave')" % (N, mode)
+        try:
+            w = np.asarray(W.window_flattop(_N(p), mode, precision="octave"))
+        except Exception as e:
+            return ["%s raised %r" % (tag, e)]
+        if w.shape != (N,) or np.iscomplexobj(w) or not np.all(np.isfinite(w)):
+            return ["%s does not return N finite real samples (shape %s)" % (tag, w.shape)]
+        if np.max(w) > 1 + 1e-8:
+            out.append("%s has maximum %.10f > 1" % (tag, np.max(w)))
+        if mode == "periodic":
+            if N > 1 and np.max(np.abs(w[1:] - w[1:][::-1])) > 1e-9:
+                out.append("%s is not periodically symmetric w[n] = w[N-n]" % tag)
+            x = 2 * np.pi * np.arange(N) / float(N)
+        else:
+            if np.max(np.abs(w - w[::-1])) > 1e-9:
+                out.append("%s is not symmetric" % tag)
+            if N >= 3 and N % 2 == 1 and abs(w[N // 2] - 1) > 1e-8:
+                out.append("%s centre sample is %.10f, not 1" % (tag, w[N // 2]))
+            x = 2 * np.pi * np.arange(N) / float(N - 1) if N > 1 else None
+        ref = np.ones(1) if x is None else _flattop_ref(x, "octave")
+        if np.any(np.abs(w - ref) > 1e-9 * np.abs(ref) + 1e-14):
+            out.append("%s differs from the cosine sum with the coefficients (1, 1.93, 1.29, 0.388, 0.0322)/4.6402: %.2e" % (tag, np.max(np.abs(w - ref))))
+        s = np.sum(w)
+        if N >= 3 and s != 0 and N * np.sum(w ** 2) / s ** 2 < 1 - 1e-12:
+            out.append("%s has ENBW < 1" % tag)
+    if p["what"] == "value-guard":
+        # shape-parameter values outside the documented set are refused (AssertionError), by the factory, the Window object
+        # and the generator alike -- never turned into some other window
+        name, kw = p["name"], p["kw"]
+        calls = (("create_window", lambda: W.create_window(N, name, **kw)), ("Window", lambda: W.Window(N, name, **kw)),
+                 ("spectrum.window." + _gen_name(name), lambda: getattr(W, _gen_name(name))(N, **kw)))
+        for label, f in calls:
+            try:
+                f()
+                out.append("%s (N=%d, %r, **%r) accepted a value outside the documented range" % (label, N, name, kw))
+            except AssertionError:
+                pass
+            except Exception as e:
+                out.append("%s (N=%d, %r, **%r) raised %r instead of AssertionError" % (label, N, name, kw, e))
     return out
 
 
-KINDS["alt"] = {"oracle": oracle_alt, "key": lambda p: "alt|%s|%d|%s|%s" % (p["what"], p["N"], p.get("beta"), p.get("name")),
+KINDS["alt"] = {"oracle": oracle_alt, "key": lambda p: "alt|%s|%d|%s|%s|%s|%s" % (p["what"], p["N"], p.get("beta"), p.get("name"), p.get("mode"),
+                                                                         sorted(p.get("kw", {}).items())),
                 "tags": lambda p: ["alt:" + p["what"]]}
 
 
@@ -290,3 +504,52 @@ def gen(rng, nrng, tier):
             yield ("win", {"name": name, "N": N, "kw": {}})
     for N in (1, 2, 3, 8, 51, 64):
         yield ("factory", {"N": N})
+    thorough = tier == "thorough"
+    # --- generator arguments and values the factory does not forward / must refuse
+    for N in (1, 2, 9, 64) + ((3, 65, 257) if thorough else ()):
+        for mode in ("symmetric", "periodic"):
+            yield ("alt", {"what": "flattop-octave", "N": N, "mode": mode})
+    yield ("alt", {"what": "flattop-octave", "N": 9, "mode": "symmetric", "ntype": "int64"})
+    for N in (9, 1, 64):
+        for name, kw in (("tukey", {"r": -0.1}), ("tukey", {"r": 1.1}), ("flattop", {"mode": "foo"}),
+                         ("tukey", {"r": -1e-9}), ("tukey", {"r": 1 + 1e-9}), ("flattop", {"mode": "Periodic"})):
+            yield ("alt", {"what": "value-guard", "N": N, "name": name, "kw": kw})
+    # --- shape parameters beyond the sampled ranges (Chebyshev: the centre clause is evaluated for >= 45 dB only, see ASSUMPTIONS)
+    for att in (20.0, 30.0, 44.9, 150.0) + ((5.0, 10.0, 200.0, 300.0) if thorough else ()):
+        for N in (1, 2, 3, 9, 64, 65, 200) + ((33, 128, 257, 511, 512) if thorough else ()):
+            yield ("win", {"name": "chebwin", "N": N, "kw": {"attenuation": att}})
+    for beta in (50.0, 300.0, 700.0) + ((100.0, 500.0) if thorough else ()):
+        for N in (1, 2, 3, 9, 64, 65) + ((8, 257, 1023, 4096) if thorough else ()):
+            yield ("win", {"name": "kaiser", "N": N, "kw": {"beta": beta}})
+    # --- the same value as the other numeric type (3 / 3.0 / numpy scalar): the identical array
+    twins = [("kaiser", {"beta": 8}, {"beta": 8.0}), ("kaiser", {"beta": 0}, {"beta": 0.0}), ("blackman", {"alpha": 0}, {"alpha": 0.0}),
+             ("gaussian", {"alpha": 3}, {"alpha": 3.0}), ("poisson", {"alpha": 2}, {"alpha": 2.0}),
+             ("poisson_hanning", {"alpha": 1}, {"alpha": 1.0}), ("cauchy", {"alpha": 3}, {"alpha": 3.0}),
+             ("tukey", {"r": 0}, {"r": 0.0}), ("tukey", {"r": 1}, {"r": 1.0}), ("chebwin", {"attenuation": 60}, {"attenuation": 60.0}),
+             ("taylor", {"nbar": 4.0}, {"nbar": 4}), ("taylor", {"sll": -30}, {"sll": -30.0}),
+             ("taylor", {"nbar": 5.0, "sll": -40}, {"nbar": 5, "sll": -40.0}),
+             ("gaussian", {"alpha": np.float32(1.5)}, {"alpha": 1.5}), ("kaiser", {"beta": np.int64(5)}, {"beta": 5.0}),
+             ("tukey", {"r": np.float64(0.25)}, {"r": 0.25}), ("chebwin", {"attenuation": np.int32(80)}, {"attenuation": 80.0})]
+    for j, (name, kw, tw) in enumerate(twins):
+        for N in (1, 2, 9, 64) + ((3, 65, 255) if thorough else ()):
+            yield ("win", {"name": name, "N": N, "kw": kw, "twin": tw})
+    # --- the length given as a numpy integer
+    for j, name in enumerate(names):
+        for k, nt in enumerate(("int64", "int32") + (("int16",) if thorough else ())):
+            N = [1, 2, 9, 64, 33, 3, 128][(j // 2 + 3 * k) % 7]
+            kw = {}
+            if name in PARAMS and (j + k) % 2:
+                kw = {PARAMS[name][0]: PARAMS[name][1](nrng)}
+            yield ("win", {"name": name, "N": N, "kw": kw, "ntype": nt})
+    for nt, N in (("int64", 16), ("int32", 17)):
+        yield ("win", {"name": "taylor", "N": N, "kw": {"nbar": 5, "sll": -35.0}, "ntype": nt})
+    for i, (N, nt) in enumerate(((1, "int64"), (8, "int32"), (51, "int64"))):
+        yield ("factory", {"N": N, "ntype": nt})
+    # --- long windows with a shape parameter
+    if thorough:
+        for name in pn:
+            key, f = PARAMS[name]
+            for N in (1023, 4096):
+                yield ("win", {"name": name, "N": N, "kw": {key: f(nrng)}})
+        for N in (1023, 4096):
+            yield ("win", {"name": "taylor", "N": N, "kw": {"nbar": int(nrng.integers(2, 8)), "sll": -float(nrng.uniform(22, 80))}})
